@@ -126,6 +126,9 @@ let rec show_recipe (r : recipe) : string =
   | RUneval a -> "(uneval " ^ show_recipe a ^ ")"
   | RKeepOrPow (p, a, b) -> "(keeppow (p" ^ path_str p ^ ") " ^ show_recipe a ^ " " ^ show_recipe b ^ ")"
   | RKeepOrCreate (p, a) -> "(keepcreate (p" ^ path_str p ^ ") " ^ show_recipe a ^ ")"
+  | RKeepOrCreate2 (p, a, b) -> "(keepcreate2 (p" ^ path_str p ^ ") " ^ show_recipe a ^ " " ^ show_recipe b ^ ")"
+  | RDatnMul (c, xs) ->
+      "(datnmul " ^ recipe_num c ^ String.concat "" (List.map (fun (x, t) -> " " ^ show_recipe x ^ " " ^ show_recipe t) xs) ^ ")"
   | RCreate (p, xs) -> "(create (p" ^ path_str p ^ ")" ^ l xs ^ ")"
   | RRawConj a -> "(rawconj " ^ show_recipe a ^ ")"
 
